@@ -68,31 +68,34 @@ def default_order():
 
 
 # the block universe; `n` makes every block of a library unique (start_line = position)
-def _blk(code, n):
+def _blk(code, n, ln=None):
+    """`n` makes the content unique; `ln` is the start_line (default: the position, so ascending)"""
+    if ln is None:
+        ln = n
     if code == "Ea":
-        return ["entry", "article", "a", [["t", "v%d" % n, n]], n, "@article{a,...}#%d" % n]
+        return ["entry", "article", "a", [["t", "v%d" % n, ln]], ln, "@article{a,...}#%d" % n]
     if code == "Eb":
-        return ["entry", "book", "b", [], n, "@book{b}#%d" % n]
+        return ["entry", "book", "b", [], ln, "@book{b}#%d" % n]
     if code == "E0":
-        return ["entry", "misc", "", [["x", "y", n]], n, "@misc{,}#%d" % n]
+        return ["entry", "misc", "", [["x", "y", ln]], ln, "@misc{,}#%d" % n]
     if code == "EA":
-        return ["entry", "misc", "A", [], n, "@misc{A}#%d" % n]
+        return ["entry", "misc", "A", [], ln, "@misc{A}#%d" % n]
     if code == "Sa":
-        return ["string", "a", "{s%d}" % n, n, "@string{a = ..}#%d" % n]
+        return ["string", "a", "{s%d}" % n, ln, "@string{a = ..}#%d" % n]
     if code == "Sb":
-        return ["string", "b", "{s%d}" % n, n, "@string{b = ..}#%d" % n]
+        return ["string", "b", "{s%d}" % n, ln, "@string{b = ..}#%d" % n]
     if code == "P":
-        return ["preamble", "p%d" % n, n, "@preamble{p}#%d" % n]
+        return ["preamble", "p%d" % n, ln, "@preamble{p}#%d" % n]
     if code == "X":
-        return ["expl", "c%d" % n, n, "@comment{c}#%d" % n]
+        return ["expl", "c%d" % n, ln, "@comment{c}#%d" % n]
     if code == "I":
-        return ["impl", "i%d" % n, n, "text#%d" % n]
+        return ["impl", "i%d" % n, ln, "text#%d" % n]
     if code == "F":
-        return ["failed", "eof", n, "@a{broken#%d" % n]
+        return ["failed", "eof", ln, "@a{broken#%d" % n]
     if code == "DF":
-        return ["dupfield", ["x"], ["entry", "article", "a", [["x", "1", n], ["x", "2", n]], n, "dupfield#%d" % n]]
+        return ["dupfield", ["x"], ["entry", "article", "a", [["x", "1", ln], ["x", "2", ln]], ln, "dupfield#%d" % n]]
     if code == "MW":
-        return ["mwerror", "invalidName", ["entry", "article", "b", [["author", "{", n]], n, "mwerror#%d" % n]]
+        return ["mwerror", "invalidName", ["entry", "article", "b", [["author", "{", ln]], ln, "mwerror#%d" % n]]
     raise ValueError(code)
 
 
@@ -101,8 +104,20 @@ U7 = U6 + ["I"]
 U11 = U7 + ["E0", "Sb", "DF", "MW"]
 
 
-def _lib(codes):
-    return [_blk(c, i) for i, c in enumerate(codes)]
+def _lines(mode, i, n):
+    """start_line of block i of n: ascending (as after parsing one file), descending or scattered (a library merged
+    from several files / built by hand), or all equal"""
+    if mode == "rev":
+        return 2 * (n - i)
+    if mode == "scatter":
+        return (7 * i + 3) % (n + 2)
+    if mode == "same":
+        return 5
+    return i
+
+
+def _lib(codes, lines="pos"):
+    return [_blk(c, i, _lines(lines, i, len(codes))) for i, c in enumerate(codes)]
 
 
 def all_orders():
@@ -158,6 +173,15 @@ def gen(tier, rng):
             k += 1
             yield _case(order, True, codes, "rotating")
             yield _case(order, False, codes, "rotating")
+    # start lines that are not ascending (ties on (rank, key) must keep LIBRARY order, whatever the line numbers say)
+    for lines in ("rev", "scatter", "same"):
+        for n in (2, 3):
+            for codes in itertools.product(["P", "X", "F", "I", "Ea", "Sa"], repeat=n):
+                for order in ("default", ["Preamble"], [], ["ExplicitComment", "ParsingFailedBlock", "Preamble"]):
+                    for p in (True, False):
+                        c = _case(order, p, codes, "lines")
+                        c["lines"] = lines
+                        yield c
     pool = U11 + ["EA", "X", "I", "X"]
     allc = CLASSES + EXTRA_CLASSES
     for _ in range(6000 if tier == "quick" else 100000):
@@ -174,13 +198,16 @@ def gen(tier, rng):
         tamper = None
         if codes and rng.random() < 0.1:
             tamper = [[rng.randrange(len(codes)), rng.choice(["a", "b", "", "zz"])] for _ in range(rng.randint(1, 2))]
-        yield _case(order, rng.random() < 0.5, codes, "tampered" if tamper else "random", tamper)
+        c = _case(order, rng.random() < 0.5, codes, "tampered" if tamper else "random", tamper)
+        if rng.random() < 0.3:
+            c["lines"] = rng.choice(["rev", "scatter", "same"])
+        yield c
 
 
 # ------------------------------------------------------------------------------------------------
 
 def _library(case):
-    lib = W.library(_lib(case["codes"]))
+    lib = W.library(_lib(case["codes"], case.get("lines", "pos")))
     for i, k in case.get("tamper") or []:
         b = lib.blocks[i]
         if hasattr(b, "key"):
@@ -206,7 +233,7 @@ def request(case):
     if case.get("tamper"):
         blocks, raw = B.enc_blocks(_library(case).blocks), True     # the library as it is, by value
     else:
-        blocks, raw = W.wire_blocks(_lib(case["codes"])), False     # the model builds Library(blocks) itself
+        blocks, raw = W.wire_blocks(_lib(case["codes"], case.get("lines", "pos"))), False     # the model builds Library(blocks) itself
     return W.enc([Sym("sortblocks"), [Sym(n) for n in names], bool(case["preserve"]), blocks, raw])
 
 
